@@ -256,6 +256,9 @@ type Machine struct {
 	knownCode map[int]*ssa.Function
 	assignLocs []*Ptr
 	ownedChans map[int]bool
+	transferred map[int]bool
+	spawnLocal map[int]bool
+	assumingPre bool
 	guardedMaps map[int]bool
 	onlyProp  string // when set, only clauses tagged with this property are evaluated
 	recCache  map[*ssa.Function]bool
@@ -425,7 +428,7 @@ func (m *Machine) Load(st *State, p *Ptr) Value {
 			}
 		}
 	}
-	if owner, ok := m.P.Contracts.Closers[p.Mem+"."+p.Path]; ok && owner == relName(m.fn) {
+	if owner, ok := m.P.Contracts.Closers[p.Mem+"."+p.Path]; ok && (owner == relName(m.fn) || strings.HasPrefix(owner, relName(m.fn)+"$")) {
 		if t, isT := v.(*Term); isT {
 			m.ownedChans[t.id] = true
 		}
@@ -649,6 +652,10 @@ func (m *Machine) Alloc(st *State, t types.Type, site string) *Ptr {
 		arr := m.heapGet(st, name, m.memSort(name, l, false))
 		st.heap[name] = m.ctx.Store(arr, r, m.ts.zeroOf(l.sort))
 	}
+	if n, ok := t.(*types.Named); ok && n.Obj().Pkg() != nil && n.Obj().Pkg().Path() == "sync" && n.Obj().Name() == "Once" {
+		a := m.heapGet(st, "once.done", ArrSort(IntSort, BoolSort))
+		st.heap["once.done"] = m.ctx.Store(a, r, m.ctx.F)
+	}
 	return &Ptr{Mem: mem, Ref: r, Elem: t}
 }
 
@@ -765,7 +772,13 @@ func (m *Machine) assumeWellFormed(st *State, t types.Type, v Value) {
 	case *Term:
 		if x.sort == IntSort {
 			switch t.Underlying().(type) {
-			case *types.Map, *types.Chan, *types.Signature, *types.Pointer:
+			case *types.Chan:
+				m.assumeRef(st, x)
+				if !x.IsNum() {
+					// channels of different element types are different objects
+					m.assumeOnce(st, m.ctx.Or(m.ctx.Eq(x, m.ctx.Int(0)), m.ctx.Eq(m.ctx.App("chanElemT", IntSort, x), m.ctx.Int(m.typeCode(t.Underlying().(*types.Chan).Elem())))))
+				}
+			case *types.Map, *types.Signature, *types.Pointer:
 				m.assumeRef(st, x)
 			case *types.Basic:
 				m.assumeIntRange(st, t, x)
